@@ -12,7 +12,9 @@ EXTENDS Naturals, Sequences, FiniteSets, TLC
 CONSTANTS MaxSegs,             \* request paths have at most this many segments
           SegAlphabet,         \* tokens a request segment is drawn from
           DevIndexNotRechecked,\* deviation: index file found inside a safe directory is served without re-check
-          DevNoPctDecode       \* deviation: the request path is not percent-decoded
+          DevNoPctDecode,      \* deviation: the request path is not percent-decoded
+          DevLoopLexical       \* deviation (the tree before the fix, section 15): what Path.resolve() returns after giving
+                               \* up at a symbolic-link loop is trusted as if it were fully resolved
 Dirs  == {"TOP", "root", "a", "root2", "out"}
 Files == {"f", "g", "sp", "s", "sec"}
 Slots == {"L1", "idx"}
@@ -60,6 +62,9 @@ InsideRoot(n) == IF n = "root" THEN TRUE ELSE IF n \notin Nodes \/ n = "TOP" THE
 RECURSIVE Flat(_)
 Flat(p) == IF p = <<>> THEN <<>> ELSE (IF DevNoPctDecode THEN Raw(Head(p)) ELSE Dec(Head(p))) \o Flat(Tail(p))
 
+\* following links from n runs in a circle: the first link met twice
+RECURSIVE LoopAnchor(_, _)
+LoopAnchor(n, seen) == IF n \in seen THEN n ELSE LoopAnchor(slot[n].to, seen \cup {n})
 \* os.path.realpath(strict=False): location = [at: real node, ghost: number of non-existing components below it]
 RECURSIVE Resolve(_, _)
 Resolve(loc, segs) ==
@@ -73,18 +78,40 @@ Resolve(loc, segs) ==
        ELSE LET c == Child(loc.at, s) IN
             IF c = "none" THEN Resolve([loc EXCEPT !.ghost = 1], rest)
             ELSE LET t == FollowLoc(c, 0) IN
-                 IF t.at = "loop" THEN [at |-> "loop", ghost |-> 0]
+                 \* realpath gives up here: it remembers where (directory, name of the link) and what was left of the request
+                 \* (the link it meets twice - LoopAnchor - is the first one on the circle, not necessarily the one it started at)
+                 IF t.at = "loop" THEN [at |-> "loop", ghost |-> 0, d |-> Parent[LoopAnchor(c, {})], c |-> Name[LoopAnchor(c, {})], rest |-> rest]
                  ELSE Resolve(t, rest)
 
 \* does directory d contain an entry whose stat() fails (dangling or looping link)?  -> listing may fail
 BadEntry(d) == \E n \in Slots : Parent[n] = d /\ IsLink(n) /\ Follow(n, 0) \in {"dangling", "loop"}
 
+\* ---- what Path.resolve() does at a symbolic-link loop -------------------------------------------------------------
+\* os.path.realpath(strict=False) gives up at the first link it meets twice and returns THAT LINK'S PATH WITH THE REST OF THE
+\* REQUEST APPENDED, UNRESOLVED; the result is normalised lexically ("x/.." cancels, links are not looked at) and only
+\* stat()ed (a RuntimeError if the stat itself runs into a loop).  LexWalk: lexical normalisation of d/<stack>/<segs>.
+RECURSIVE LexWalk(_, _, _)
+LexWalk(d, stack, segs) ==
+  IF segs = <<>> THEN [d |-> d, names |-> stack]
+  ELSE LET s == Head(segs)  rest == Tail(segs) IN
+       IF s = "" \/ s = "." THEN LexWalk(d, stack, rest)
+       ELSE IF s = ".." THEN (IF stack # <<>> THEN LexWalk(d, SubSeq(stack, 1, Len(stack) - 1), rest)
+                              ELSE LexWalk(Parent[d], <<>>, rest))
+       ELSE LexWalk(d, Append(stack, s), rest)
+\* the lexical path lies under the document root (what relative_to() tests)
+LexInside(lw) == InsideRoot(lw.d) \/ (lw.d = "TOP" /\ lw.names # <<>> /\ lw.names[1] = "root")
+\* walking d/<names> meets a symbolic link: resolving the path once more would change it
+RECURSIVE HasLink(_, _)
+HasLink(d, names) ==
+  IF names = <<>> THEN FALSE
+  ELSE LET c == Child(d, Head(names)) IN
+       IF c = "none" THEN FALSE ELSE IF IsLink(c) THEN TRUE ELSE IF IsDirN(c) THEN HasLink(c, Tail(names)) ELSE FALSE
+
 \* ---- the handler -------------------------------------------------------------------
 Resp(st, n, what) == [st |-> st, node |-> n, what |-> what, mayfail |-> FALSE]
-Serve ==
-  LET loc == Resolve([at |-> "root", ghost |-> 0], Flat(path)) IN
-  IF loc.at = "loop" THEN Resp(40, "none", "error")                       \* resolve() raises / symlink loop
-  ELSE IF ~InsideRoot(loc.at) THEN Resp(51, "none", "none")               \* _is_safe_path
+\* everything after the path has been resolved to loc; contained = the containment test really is about loc
+ServeAt(loc, contained) ==
+  IF contained /\ ~InsideRoot(loc.at) THEN Resp(51, "none", "none")        \* _is_safe_path
   ELSE IF loc.ghost > 0 THEN Resp(51, "none", "none")                     \* does not exist
   ELSE IF IsDirN(loc.at) THEN
        LET idx == Child(loc.at, "index.gmi")
@@ -95,7 +122,19 @@ Serve ==
        ELSE IF listing THEN [Resp(20, loc.at, "listing") EXCEPT !.mayfail = BadEntry(loc.at)] ELSE Resp(51, "none", "none")
   ELSE IF IsFileN(loc.at) THEN Resp(20, loc.at, "file")
   ELSE Resp(51, "none", "none")
+Serve ==
+  LET loc == Resolve([at |-> "root", ghost |-> 0], Flat(path)) IN
+  IF loc.at # "loop" THEN ServeAt(loc, TRUE)
+  ELSE LET lw == LexWalk(loc.d, <<loc.c>>, loc.rest)
+           r  == Resolve([at |-> lw.d, ghost |-> 0], lw.names) IN        \* where the operating system ends up from there
+       IF r.at = "loop" THEN Resp(40, "none", "error")                    \* resolve()'s own stat() meets the loop: RuntimeError
+       ELSE IF DevLoopLexical THEN                                         \* before the fix: only the lexical path is tested
+            (IF LexInside(lw) THEN ServeAt(r, FALSE) ELSE Resp(51, "none", "none"))
+       ELSE IF HasLink(lw.d, lw.names) THEN Resp(51, "none", "none")      \* resolving once more changes the path: refused
+       ELSE ServeAt(r, TRUE)
 
+\* (for the loop instance) some link of the tree runs in a circle
+HasLoop == \E n \in Slots : IsLink(n) /\ Follow(n, 0) = "loop"
 Init == /\ slot \in [Slots -> SlotKinds] /\ listing \in BOOLEAN
         /\ path \in Paths /\ trailing \in BOOLEAN /\ out = Resp(0, "none", "pending")
 Eval == out.what = "pending" /\ out' = Serve /\ UNCHANGED <<slot, listing, path, trailing>>
